@@ -106,6 +106,8 @@ def run(ctx):
     ctx.do(rule_copies_present)
     ctx.do(rule_immutable_api)
     ctx.do(rule_deepcopy)
+    from . import C15 as _C15v
+    ctx.do(_C15v.rule_value_object, rule_id="C13.deepcopy")
     from .hidden_state import rule_no_hidden_state
     ctx.do(rule_no_hidden_state, "C13.history-independence")
 
